@@ -298,6 +298,39 @@ control("C05", "deepcopy of the left operand's map weakened to a shallow copy",
         [(UD, "            category_to_unit_and_exp1 = copy.deepcopy(quantity1.GetCategoryToUnitAndExps())", "            category_to_unit_and_exp1 = copy.copy(quantity1.GetCategoryToUnitAndExps())")], "C05.R7")
 control("C05", "a failing conversion registers the unknown unit",
         [(UD, "                raise InvalidUnitError(\n                    unit, quantity_type, valid_units=sorted([info.unit for info in quantity_types])\n                )", "                self.unit_to_unit_info.setdefault(unit, None)  # type:ignore\n                raise InvalidUnitError(\n                    unit, quantity_type, valid_units=sorted([info.unit for info in quantity_types])\n                )")], "C05.R7")
+# ------------------------------------------------------------------------------------------ C03 / C04 / C09
+control("C03", "Subtract adds",
+        [(UD, "        func = lambda a, b: a - b\n", "        func = lambda a, b: a + b\n")], "C03.R1")
+control("C03", "Subtract negates the right value before unit matching",
+        [(UD, "        func = lambda a, b: a - b\n        return self._DoOperationWithSameQuantity(quantity1, quantity2, value1, value2, func)", "        return self.Sum(quantity1, quantity2, value1, -value2)")], "C03.R1")
+control("C03", "unit matching visits the right operand first",
+        [(UD, "        for c in (category_to_unit_and_exp1, category_to_unit_and_exp2):", "        for c in (category_to_unit_and_exp2, category_to_unit_and_exp1):")], "C03.R2")
+control("C03", "Scalar.__rsub__ keeps the operand order",
+        [(S, "        return self._DoOperation(other, self, \"Subtract\", lambda a, b: a - b)", "        return self._DoOperation(self, other, \"Subtract\", lambda a, b: a - b)")], "C03.R4")
+control("C03", "a repeated unit is relabelled without converting the value again",
+        [(UD, "                    if c is category_to_unit_and_exp1:\n                        value1 = self.Convert(", "                    if (quantity_type, unit) in quantity_types_found_to_used_unit:\n                        pass\n                    elif c is category_to_unit_and_exp1:\n                        value1 = self.Convert(")], "C03.R5")
+control("C04", "Divide adds exponents",
+        [(UD, "            quantity1, quantity2, value1, value2, lambda a, b: a - b, lambda a, b: a / b", "            quantity1, quantity2, value1, value2, lambda a, b: a + b, lambda a, b: a / b")], "C04.R2")
+control("C04", "Array.__rtruediv__ keeps the operand order",
+        [(AR, "    def __rtruediv__(self: SelfT, other: Any) -> SelfT:\n        return self._DoOperation(other, self, \"Divide\")", "    def __rtruediv__(self: SelfT, other: Any) -> SelfT:\n        return self._DoOperation(self, other, \"Divide\")")], "C04.R1")
+control("C04", "removal test loses the own-exponent clause",
+        [(UD, "            if exp == 0 or only_units_expoents[unit] == 0:", "            if only_units_expoents[unit] == 0:")], "C04.R3")
+control("C04", "Scalar.__floordiv__ callback divides exactly",
+        [(S, "        return self._DoOperation(self, other, \"FloorDivide\", lambda a, b: a // b)", "        return self._DoOperation(self, other, \"FloorDivide\", lambda a, b: a / b)")], "C04.R1")
+control("C04", "__pow__ runs exponent times",
+        [(S, "        for _ in range(exponent - 1):\n            result = result * self", "        for _ in range(exponent):\n            result = result * self")], "C04.R4")
+control("C04", "exponents merged as operation_exp(exp2, exp1)",
+        [(UD, "                    unit_exp1[1] = operation_exp(exp1, exp2)  # type:ignore[index]", "                    unit_exp1[1] = operation_exp(exp2, exp1)  # type:ignore[index]")], "C04.R3")
+control("C09", "number arm passes the empty quantity",
+        [(S, "        if IsNumber(p2):\n            return self.__class__.CreateWithQuantity(\n                self._quantity, callback_operation(self._value, p2)\n            )", "        if IsNumber(p2):\n            return self.__class__.CreateWithQuantity(\n                Quantity.CreateEmpty(), callback_operation(self._value, p2)\n            )")], "C09.R1")
+control("C09", "numpy.number dropped from IsNumber",
+        [(TY, "        result.add(numpy.number)", "        pass")], "C09.R2")
+control("C09", "Scalar.__rfloordiv__ deleted",
+        [(S, "    def __rfloordiv__(self, other: Any) -> \"Scalar\":\n        return self._DoOperation(other, self, \"FloorDivide\", lambda a, b: a // b)\n", "")], "C09.R3")
+control("C09", "adding zero returns the operand itself",
+        [(S, "        p1_is_number = IsNumber(p1)\n", "        p1_is_number = IsNumber(p1)\n        if operation in (\"Sum\", \"Subtract\") and ((p1_is_number and p1 == 0) or (IsNumber(p2) and p2 == 0)):\n            return self\n")], "C09.R1")
+control("C09", "left-number arm applies the callback with swapped operands",
+        [(S, "                self._quantity, callback_operation(p1, self._value)", "                self._quantity, callback_operation(self._value, p1)")], "C09.R1")
 # ------------------------------------------------------------------------------------------ running
 def _apply(edits):
     overlay = {}
